@@ -533,6 +533,30 @@ def TV(text):
     return {ord(c) for c in re.findall("[" + body + "]", _TV_UNIVERSE, re.S)}
 
 
+def CALLQ(qualname, *args):
+    from pvc import bex_contract
+    owner, f = bex_contract.resolve(qualname)
+    return f(*args)
+
+
+def PAT(text):
+    return pre().Pregex(text, escape=False)
+
+
+def NEW(cname, *args):
+    from pvc.native import pregex_ns
+    return pregex_ns()[cname](*args)
+
+
+def INTB(x):
+    return isinstance(x, int)
+
+
+def NUMERAL_DIGITS(base):
+    from pregex.meta.essentials import Numeral
+    return Numeral(base, 1, 1, True)
+
+
 def ISGLOBALWORD(x):
     import pregex.core.classes as cl
     return isinstance(x, (cl.AnyWordChar, cl.AnyButWordChar)) and x._is_global()
